@@ -34,8 +34,9 @@ func LoadSpec(text []byte) (*loads.Document, error) {
 
 // SpecOpts selects the validator configuration.
 type SpecOpts struct {
-	Continue bool
-	Strict   bool
+	Continue     bool
+	Strict       bool
+	SkipSchemata bool // Opts.SkipSchemataResult: the caller does not want the schemata recorded (verdict and messages must not change)
 }
 
 // ValidateSpec loads and validates a document with a SpecValidator pinned to the given options.
@@ -81,6 +82,7 @@ func ValidateDocWith(doc *loads.Document, o SpecOpts, formats strfmt.Registry) (
 	v := validate.NewSpecValidator(doc.Schema(), formats)
 	v.SetContinueOnErrors(o.Continue)
 	v.Options.StrictPathParamUniqueness = o.Strict
+	v.Options.SkipSchemataResult = o.SkipSchemata
 	errs, warns := v.Validate(doc)
 	out.Loaded = true
 	if errs == nil || warns == nil {
@@ -131,6 +133,7 @@ func (ss *SpecSession) Validate(text []byte, o SpecOpts) (out SpecOutcome) {
 		v = validate.NewSpecValidator(doc.Schema(), formats)
 		v.SetContinueOnErrors(o.Continue)
 		v.Options.StrictPathParamUniqueness = o.Strict
+		v.Options.SkipSchemataResult = o.SkipSchemata
 		ss.validators[o] = v
 	}
 	ss.Count++
